@@ -15,6 +15,16 @@ Fixpoint pm_get (pm : pmap) (n : bytes) : option (list bytes) :=
   | (k, vs) :: pm' => if bytes_eqb k n then Some vs else pm_get pm' n
   end.
 
+(** StaticParamsMap::insert: a later insert replaces the values of the name in place;
+    FromIterator keeps every entry (and [get] finds the first) *)
+Fixpoint pm_insert (pm : pmap) (k : bytes) (vs : list bytes) : pmap :=
+  match pm with
+  | [] => [(k, vs)]
+  | (k', vs') :: pm' => if bytes_eqb k' k then (k', vs) :: pm' else (k', vs') :: pm_insert pm' k vs
+  end.
+Definition pm_of_inserts (l : pmap) : pmap :=
+  fold_left (fun m kv => pm_insert m (fst kv) (snd kv)) l [].
+
 (** [if s.starts_with("/") || s.is_empty() { p + s } else { p + "/" + s }] *)
 Definition join_static (p s : bytes) : bytes :=
   if starts_with_slash s || match s with [] => true | _ => false end then p ++ s
